@@ -21,6 +21,27 @@ def dom(name, run_mod, nq, nt, model=True):
 
 
 PROPS = {
+    "C04": {
+        "domains": [
+            {
+                "name": "c04",
+                "run_vo": "Model/RunProxy.vo",
+                "n_quick": 60,
+                "n_thorough": 600,
+                "model": True
+            }
+        ],
+        "trusted": [
+            "in-process rig (harness/vh/pgrig.go): harness ClientSession over net.Pipe, scripted client and fake back end built on pgproto3; the fake back end decodes forwarded statements with the real PostgreSQL parser (pg_query) and implements bytea/text input/output conversion itself",
+            "statement analysis (encryptor/postgresql/queryDataEncryptor.go on pg_query trees), bind-parameter handling, text/binary re-encoding (data_encoder.go, types/) are covered by the end-to-end oracle only; the Coq model starts at the abstract statement form",
+            "rig keystore answers fs.ErrNotExist for identities without keys, like keystore/filesystem",
+            "not covered: MySQL proxy/encryptor, tokenized / typed (data_type) / masked columns, searchable columns are oracle-only (C09-C11, C19 own them), TLS, censor"
+        ],
+        "assumptions": [
+            "Correct C as an explicit premise; tape/key well-formedness premises of the C01 theorems",
+            "encryptor config column lists agree with the database's column order (SELECT * / schema-ordered VALUES)"
+        ]
+    },
     "C05": {
         "domains": [
             {
